@@ -20,6 +20,7 @@ RULE = ("layer A (small curves): ecmath.verify over EVERY (point P, digest z in 
 ASSUMPTIONS = ["E2 small-curve retargeting (see C03)", "reference predicate vf/ref/ecref.ecdsa_verify; strict/lenient DER readers "
                "vf/ref/der_ref.py; a DER string valid only under a lenient reading may be accepted or rejected"]
 OBLIGATIONS = {
+    "history_sequences": "operation sequences (non-initial process states) explored",
     "infinity_tuple": "a tuple with u1*G + u2*P = infinity was offered",
     "s_complement": "a valid signature with s replaced by n-s was offered (must be accepted)",
     "r_alias": "r + n (same residue, out of range) was offered",
@@ -148,7 +149,33 @@ CASES = {"point": chk_point, "tuple": chk_tuple, "lows": chk_lows}
 
 
 def run_case(kind, case):
+    if kind == "seq":
+        from vf import seqexplore
+        return seqexplore.replay(run_case, case)
     return CASES[kind](case)
+
+
+def seq_ops(job):
+    """operations whose answers must not depend on what was verified before: keys d and n-d (same x, opposite parity) in
+    both encodings, the parity-flipped key of a valid tuple, uncompressed forms, low-S normalisation"""
+    cv = job["curve"]
+    C = smallcurve.curve(cv)
+    msg, flag = b"m", 1
+    z = int.from_bytes(h256(msg + flag.to_bytes(4, "little")), "big")
+    ops = []
+    for d in (3, C.n - 3, 5):
+        P = C.mul(d, C.G)
+        rs = valid_sig_for(C, d, z)
+        sig = (D.encode(*rs) + bytes([flag])).hex()
+        cpk = enc_pk(P, True)
+        ops.append(("tuple", {"curve": cv, "sig": sig, "pk": cpk.hex(), "msg": msg.hex(), "what": f"valid, key {d} compressed"}))
+        ops.append(("tuple", {"curve": cv, "sig": sig, "pk": enc_pk(P, False).hex(), "msg": msg.hex(), "what": f"valid, key {d} uncompressed"}))
+        ops.append(("tuple", {"curve": cv, "sig": sig, "pk": (bytes([cpk[0] ^ 1]) + cpk[1:]).hex(), "msg": msg.hex(),
+                              "what": f"key {d} with the parity prefix flipped (must be rejected)"}))
+        ops.append(("tuple", {"curve": cv, "sig": sig[:-2] + "21", "pk": cpk.hex(), "msg": msg.hex(), "what": "other sighash byte (must be rejected)"}))
+    ops.append(("lows", {"curve": cv, "r": 5, "s": C.n - 2}))
+    ops.append(("point", {"curve": cv, "P": list(C.mul(3, C.G)), "r": 1, "s": 1, "z": 0}))
+    return ops
 
 
 # ------------------------------------------------------------------ helpers for building tuples
@@ -197,6 +224,8 @@ def jobs(tier, seed):
         for sh in range(16):
             js.append({"name": f"secp/flips/{b}/{sh}", "part": "flips", "base": b, "shard": [sh, 16], "weight": 12})
     js.append({"name": "secp/lows", "part": "real-lows", "weight": 4})
+    from vf.runner import seq_jobs
+    js += seq_jobs(4, curve=t43, weight=4)
     return js
 
 
@@ -219,6 +248,9 @@ def base_tuple(seed, b):
 
 
 def run_job(job):
+    if job["part"] == "seq":
+        from vf.runner import run_seq_job
+        return run_seq_job(job, seq_ops(job), run_case)
     acc = Acc(job)
     part = job["part"]
     cv = job.get("curve")
